@@ -19,8 +19,12 @@ What obligation C has to keep in mind (properties of XML/roxmltree, not of these
 * a `Float`/`Integer` element whose printed text were EMPTY would have no text child at all (Rust never
   prints a number as the empty string); an empty CDATA section does give a text child `""`;
 * the parser normalises "\r\n" and "\r" to "\n" in text and CDATA, and white space to spaces in attribute
-  values: a string containing "\r" and an extension URL containing tab/newline do not come back unchanged;
+  values; the writer therefore writes a carriage return of a string as the reference `&#13;` outside the
+  CDATA section (`cdataEscape`) and tab/newline/CR of an extension URL as references (`attrEscape`): both
+  come back unchanged (`XmlP.cdata_roundtrip`, `XmlP.attr_roundtrip`);
 * an extension URL equal to the XML or XMLNS namespace makes roxmltree reject the document.
+Obligation C is now a theorem: `E57/Spec/XmlParse.lean` (a parser following roxmltree),
+`E57/Proofs/XmlRender.lean` (`parse_render`), `E57/Proofs/XmlRoundTrip.lean` (`C04_text_roundtrip`).
 
 Core Lean only.
 -/
